@@ -373,8 +373,21 @@ func runC13(c *Ctx) {
 			c.Law(good, class, "x.toString().toT() = x for x already of type T", fmt.Sprintf("%%x.toString().to%s() = %%x with %%x = %s [%s]", ty, descs[k], tok), canonOutcome(o, nil)+" (toString: "+canonOutcome(eval(exprs["String"].to, x), nil)+")")
 			c.Observe("roundtrip "+tok, true)
 		}
+		// L7: Date <-> DateTime keep the precision: a Date widened to a DateTime and narrowed again is the same Date
+		if ty == "Date" || ty == "DateTime" {
+			o := eval(dateThere, x)
+			good := o.Err == nil && !o.Panicked && len(o.Coll) == 1 && o.Coll[0] == system.Boolean(true)
+			c.Law(good, "C13/date-datetime-date", "toDate().toDateTime().toDate() = toDate(): widening a Date to a DateTime keeps its precision", fmt.Sprintf("%%x = %s [%s]", descs[k], tok),
+				canonOutcome(o, nil)+" (toDate: "+canonOutcome(eval(dateOnly, x), nil)+", then toDateTime: "+canonOutcome(eval(dateWide, x), nil)+")")
+		}
 	}
 }
+
+var (
+	dateThere = fhirpath.MustCompile("%x.toDate().toDateTime().toDate() = %x.toDate()")
+	dateOnly  = fhirpath.MustCompile("%x.toDate()")
+	dateWide  = fhirpath.MustCompile("%x.toDate().toDateTime()")
+)
 
 func mustFrom(x any) system.Any {
 	v, _ := system.From(x)
